@@ -426,3 +426,15 @@ Print Assumptions c18_sized_unrestricted_refuted.
 Print Assumptions c18_reached_nonvacuous.
 Print Assumptions c18_reached_100.
 Print Assumptions c18_inv_send_body.
+
+(* ================================================================== Flow<SendBody>::calculate_max_input itself (translated from the source) *)
+(** The flow-level function the caller asks -- the whole output buffer for a sized body, body.rs calculate_max_input for a chunked
+    one -- is translated on every run (theories/Gen2.v, [gen_flow_calculate_max_input]) and is the model's [send_body_max_input]
+    (proofs/Gen2_equiv_small_maxinput.v). *)
+From Hoot Require Import GenLib Gen2.
+From Hoot.proofs Require Import Gen2_equiv_small_maxinput.
+Theorem c18_code_flow_calculate_max_input : forall f n,
+  i_holder f = HWithBody ->
+  send_body_max_input f n = Ok (gen_flow_calculate_max_input (w_is_chunked (c_writer (i_call f))) n).
+Proof. exact gen_flow_calculate_max_input_eq. Qed.
+Print Assumptions c18_code_flow_calculate_max_input.
